@@ -5,7 +5,7 @@ From Coq Require Import List NArith ZArith Bool Lia.
 From Common Require Import Bytes Outcome.
 From Gen Require Import C09.
 From C09 Require Import Model Model4 ModelT Util Proofs_12 Proofs_4edges Proofs_4spec
-  Proofs_4emit Proofs_4dec Proofs_T.
+  Proofs_4emit Proofs_4dec Proofs_4rt Proofs_T.
 Import ListNotations.
 Local Open Scope N_scope.
 
@@ -161,26 +161,23 @@ Theorem decode4_agrees_with_spec :
 Proof. intros data m' Hb H. exact (decode4_spec data m' Hb H). Qed.
 Print Assumptions decode4_agrees_with_spec.
 
-(* Encoder and decoder together: if the library's decoder accepts the bytes
-   emitted for a path, it returns the map (every code below 0xFFFF exactly;
-   code 0xFFFF up to the tolerance above). *)
-Theorem format4_roundtrip_partial :
+(* Encoder and decoder together: the library's decoder accepts the bytes
+   emitted for every path that fits and returns the map: the same glyph for
+   every code, 0xFFFF included, glyph 0 for unmapped codes. *)
+Theorem format4_roundtrip :
   forall (m : N -> N), (forall c, m c < 65536) ->
-  forall (segs : list seg4) (lang : N) (b : list N) (m' : amap),
+  forall (segs : list seg4) (lang : N),
     lang < 65536 -> path m 0 segs -> emit4_size m segs <= 65535 ->
-    M_emit4 m segs lang = Ok b ->
-    M_decode4 (fun c => c) b = Ok m' ->
-    forall c, c <= 65535 -> lookup m' c = m c \/ (c = 65535 /\ lookup m' c = 0).
+    exists b m',
+      M_emit4 m segs lang = Ok b /      M_decode4 (fun c => c) b = Ok m' /\ sorted_keys m' = true /      forall c, c <= 65535 -> lookup m' c = m c.
 Proof.
-  intros m Hm segs lang b m' Hl Hp Hs Hb Hd c Hc.
-  destruct (emit4_correct m Hm segs lang) as (b0 & H1 & _ & H3 & _); [|assumption|assumption|].
-  { apply (path_wf m Hm); [lia|assumption]. }
-  rewrite Hb in H1. injection H1 as <-.
-  assert (Hbytes : Forall (fun x => x < 256) b) by exact (emit4_bytes_ok m segs lang b Hb).
-  destruct (decode4_spec b m' Hbytes Hd) as (_ & _ & H).
-  apply (H c (m c) Hc). now apply H3.
+  intros m Hm segs lang Hl Hp Hs.
+  assert (Hwf : wf_segs m 0 segs) by (apply (path_wf m Hm); [lia|assumption]).
+  destruct (emit4_correct m Hm segs lang Hwf Hl Hs) as (b & H1 & _).
+  destruct (decode4_emit4 m Hm segs lang b Hwf Hl Hs H1) as (m' & D1 & D2 & D3).
+  exists b, m'. repeat split; assumption.
 Qed.
-Print Assumptions format4_roundtrip_partial.
+Print Assumptions format4_roundtrip.
 
 (* P1 (C02 part): decodeFormat4 never panics, for any bytes and any code2rune. *)
 Theorem decode4_total :
